@@ -74,6 +74,8 @@ class Ctx:
         """Reference position on a side as a jet (2,)*d + (tdim,)."""
         B, d = self.B, self.d
         s = self.world.sides[sidename]
+        if getattr(self.world, "curved", False):
+            return self._posX_curved(s)
         out = B.zeros((2,) * d + (s.tdim,))
         out[(0,) * d] = B.asarray(s.X)
         for lvl, fr in enumerate(self.frames):
@@ -87,6 +89,51 @@ class Ctx:
                     e[fr[2]] = B.scalar(1)
                     out[idx] = e
         return out
+
+
+def _posX_curved(self, s):
+    """Reference position under a non-affine map: the frames are applied from the outermost inwards; a physical
+    direction e_j perturbs the reference point by eps * K(X)[:, j] with K taken at the point as perturbed so far
+    (exact, since eps**2 == 0 on every level)."""
+    key = ("posX", self.frames)
+    hit = self.root.memo.get(key)
+    if hit is not None:
+        return hit
+    B, d = self.B, self.d
+    X = B.zeros((2,) * d + (s.tdim,))
+    X[(0,) * d] = B.asarray(s.X)
+    for lvl, fr in enumerate(self.frames):
+        if fr[0] != "S":
+            continue
+        if fr[1] == "phys":
+            K = J.jinv(B, curved_jacobian(self.world, B, X, d), d)
+            Z = K[..., :, fr[2]]
+        else:
+            Z = B.zeros((2,) * d + (s.tdim,))
+            Z[(0,) * d + (fr[2],)] = B.scalar(1)
+        X = X + insert_eps(B, np.take(Z, 0, axis=lvl), lvl)
+    self.root.memo[key] = X
+    return X
+
+
+Ctx._posX_curved = _posX_curved
+
+
+def curved_jacobian(w, B, X, d):
+    """J(X) = A + Q X as a jet (2,)*d + (g, t)."""
+    Jm = J.acopy(J.einsum("gtu,...u->...gt", B.asarray(w.Q), X))
+    Jm[(0,) * d] = Jm[(0,) * d] + B.asarray(w.A)
+    return Jm
+
+
+def curved_x(w, B, X, d):
+    """x(X) = x0 + A X + 1/2 Q X X as a jet (2,)*d + (g,)."""
+    lin = J.einsum("gt,...t->...g", B.asarray(w.A), X)
+    QX = J.einsum("gtu,...u->...gt", B.asarray(w.Q), X)  # (.., g, t)
+    quad = J.mul(QX, X[..., None, :], d).sum(axis=-1)
+    x = J.acopy(lin + quad * B.scalar(0.5))
+    x[(0,) * d] = x[(0,) * d] + B.asarray(w.x0)
+    return x
 
 
 def insert_eps(B, arr_low, lvl):
@@ -365,6 +412,8 @@ def _pushforward(f, F, ctx, sidename):
         # Fl: (2,)*d + rshape
         if kind == "identity":
             return Fl
+        if getattr(w, "curved", False):
+            return _curved_leaf(kind, Fl, ctx, sidename)
         Jm, K, detJ = g("Jacobian"), g("JacobianInverse"), g("JacobianDeterminant")
         if kind == "contravariant":
             return J.einsum("gt,...t->...g", Jm, Fl) / detJ
@@ -410,6 +459,35 @@ def _pushforward(f, F, ctx, sidename):
 
     out = rec(e, F)
     return out
+
+
+def _curved_leaf(kind, Fl, ctx, sidename):
+    """The push-forwards on a non-affine cell: J, K and detJ are jets (they vary with the point), so every product
+    is a jet product."""
+    B, d = ctx.B, ctx.d
+    Jm = curved_jacobian(ctx.world, B, ctx.posX(sidename), d)  # (.., g, t)
+    tr = lambda m: np.swapaxes(m, -1, -2)  # noqa: E731
+    mm = lambda a, b: J.jmatmul(a, b, d)  # noqa: E731
+    vec = lambda m, v: J.jmatmul(m, v[..., None], d)[..., 0]  # noqa: E731
+    if kind in ("contravariant", "l2", "dcontra", "covcontra"):
+        det = J.jdet(B, Jm, d)
+        rdet = J.jrecip(B, det if hasattr(det, "ndim") else J.fix(np.asarray(det)), d)
+    if kind in ("covariant", "dcov", "covcontra"):
+        K = J.jinv(B, Jm, d)  # (.., t, g)
+    if kind == "contravariant":
+        return J.mul(vec(Jm, Fl), rdet[..., None], d)
+    if kind == "covariant":
+        return vec(tr(K), Fl)
+    if kind == "l2":
+        return J.mul(Fl, rdet.reshape(rdet.shape + (1,) * (Fl.ndim - d)), d)
+    if kind == "dcontra":
+        out = mm(mm(Jm, Fl), tr(Jm))
+        return J.mul(out, J.mul(rdet, rdet, d)[..., None, None], d)
+    if kind == "dcov":
+        return mm(mm(tr(K), Fl), K)
+    if kind == "covcontra":
+        return J.mul(mm(mm(tr(K), Fl), tr(Jm)), rdet[..., None, None], d)
+    raise Unsupported("push-forward " + kind)
 
 
 def _form_argument_value(f, ctx, sidename):
@@ -507,6 +585,8 @@ def _x(e, ctx):
     d, B = ctx.d, ctx.B
 
     def f(s):
+        if getattr(ctx.world, "curved", False):
+            return curved_x(ctx.world, B, ctx.posX(s), d)
         g = ctx.world.sides[s].geo(B)
         X = ctx.posX(s)
         x = J.einsum("gt,...t->...g", g("Jacobian"), X)
@@ -543,11 +623,27 @@ def _geometric(e, ctx):
     B = ctx.B
 
     def f(s):
+        if getattr(ctx.world, "curved", False):
+            return _curved_geometric(name, ctx, s)
         a = ctx.world.sides[s].geo(B)(name)
         return J.jconst(B, B.to_complex(a), ctx.d) if False else _jc(B, a, ctx.d)
 
     arr = _two_sided(ctx, f, name)
     return V(arr, arr.ndim - ctx.d, ())
+
+
+def _curved_geometric(name, ctx, s):
+    """Point-dependent geometry of a non-affine cell (vf.world.CurvedWorld)."""
+    B, d = ctx.B, ctx.d
+    if name not in ("Jacobian", "JacobianInverse", "JacobianDeterminant"):
+        raise Unsupported("geometric quantity " + name + " on a non-affine cell")
+    Jm = curved_jacobian(ctx.world, B, ctx.posX(s), d)
+    if name == "Jacobian":
+        return Jm
+    if name == "JacobianInverse":
+        return J.jinv(B, Jm, d)
+    out = J.jdet(B, Jm, d)
+    return out if hasattr(out, "ndim") else J.fix(np.asarray(out))
 
 
 def _jc(B, a, d):
